@@ -15,6 +15,7 @@ Local variable names are irrelevant (matched positionally / by role); comments a
 from __future__ import annotations
 
 import ast
+import re
 from typing import Any
 
 from harness.common import TranslateError, ast_digest, src_text
@@ -387,15 +388,436 @@ def _engine_db() -> dict:
     if not uns or not _is(uns[0].body[-1], 'return inv_list, make_lookup(file, base + inv_list)'):
         raise TranslateError('BinStrDict.unserialise lookup list not recognised')
     digests = {}
+    edb: dict[str, ast.FunctionDef] = {}
     for n in ast.walk(tree):
         if isinstance(n, ast.ClassDef) and n.name == 'EngineDB':
             for f in n.body:
                 if isinstance(f, ast.FunctionDef) and f.name in ('get_ent', '_parse_block', 'get_fgd'):
                     digests[f.name] = ast_digest(f)
+                    edb[f.name] = f
     if set(digests) != {'get_ent', '_parse_block', 'get_fgd'}:
         raise TranslateError('EngineDB.get_ent/_parse_block/get_fgd not found')
-    return dict(vt_members=vt_members, vt_order=vt_order, et_members=et_members, ft_members=ft_members, ft_order=ft_order,
+    lazy = _lazy_db(edb)
+    layouts = _record_layouts(tree)
+    kvw = layouts['kv_serialise']
+    special = {}
+    for i, ev in enumerate(kvw[:-1]):
+        m = re.fullmatch(r'if\(_\.type is ValueTypes\.(\w+)\)\{', ev)
+        if m:
+            special['choices' if kvw[i + 1] == 'raise' else 'list'] = vt_alias.get(m.group(1), m.group(1))
+    if set(special) != {'list', 'choices'}:
+        raise TranslateError(f'kv_serialise: the SPAWNFLAGS / CHOICES branches were not recognised: {kvw}')
+    return dict(lazy=lazy, layouts=layouts, special_types=special, vt_members=vt_members, vt_order=vt_order, et_members=et_members, ft_members=ft_members, ft_order=ft_order,
                 ef_members=ef_members, structs=structs, consts=consts, bits=bits, digests=digests)
+
+
+# ------------------------------------------------------------------------------------------ text writers
+class _TextSkeleton:
+    """The write skeleton of a text exporter: every `file.write(expr)`, `_write_longstring(file, ext, text, indent=..)` and
+    nested `.export(file, ...)` call in program order with the branches/loops around them.  Parameter and local
+    variable names are rendered as `_` (attribute names, literals, module-level names stay)."""
+
+    def __init__(self, fn: ast.FunctionDef) -> None:
+        self.fn = fn
+        self.file = fn.args.args[1].arg
+        self.locals = {a.arg for a in fn.args.args} | {n.id for n in ast.walk(fn) if isinstance(n, ast.Name) and isinstance(n.ctx, ast.Store)}
+
+    def show(self, node: ast.AST) -> str:
+        import copy
+        loc = self.locals
+
+        class R(ast.NodeTransformer):
+            def visit_Name(self, n: ast.Name) -> ast.AST:   # noqa: N802
+                return ast.Name(id='_', ctx=n.ctx) if n.id in loc else n
+        return ast.unparse(R().visit(copy.deepcopy(node)))
+
+    def uses_file(self, node: ast.AST) -> bool:
+        return any(isinstance(n, ast.Name) and n.id == self.file for n in ast.walk(node))
+
+    def stmt(self, st: ast.stmt) -> list[str]:
+        if isinstance(st, ast.Expr) and isinstance(st.value, ast.Call):
+            c = st.value
+            if isinstance(c.func, ast.Attribute) and isinstance(c.func.value, ast.Name) and c.func.value.id == self.file and c.func.attr == 'write':
+                return ['w:' + self.show(c.args[0])]
+            if isinstance(c.func, ast.Name) and c.func.id == '_write_longstring':
+                kw = {k.arg: k.value for k in c.keywords}
+                if len(c.args) != 3 or set(kw) != {'indent'} or not _is(c.args[0], self.file):
+                    raise TranslateError(f'{self.fn.name}: _write_longstring call not recognised (line {c.lineno})')
+                return [f'ls:{self.show(c.args[1])},{self.show(c.args[2])},{self.show(kw["indent"])}']
+            if isinstance(c.func, ast.Attribute) and c.func.attr == 'export' and self.uses_file(c):
+                return ['export:' + ','.join(self.show(a) for a in c.args)]
+            if self.uses_file(c):
+                raise TranslateError(f'{self.fn.name}: the file is used by {ast.unparse(c)[:60]} (line {c.lineno})')
+            return []
+        if isinstance(st, ast.If):
+            body = [e for x in st.body for e in self.stmt(x)]
+            orelse = [e for x in st.orelse for e in self.stmt(x)]
+            if not body and not orelse:
+                return []
+            return [f'if({self.show(st.test)}){{'] + body + (['}else{'] + orelse if orelse else []) + ['}']
+        if isinstance(st, (ast.For, ast.While)):
+            body = [e for x in st.body for e in self.stmt(x)]
+            if st.orelse:
+                raise TranslateError(f'{self.fn.name}: loop with else')
+            if not body:
+                return []
+            return [f'loop({self.show(st.iter) if isinstance(st, ast.For) else self.show(st.test)}){{'] + body + ['}']
+        if isinstance(st, ast.Try):
+            # `try: float(value) except ValueError: value = ...` of the choices writer: no write inside
+            if any(self.uses_file(x) for x in ast.walk(st)):
+                raise TranslateError(f'{self.fn.name}: try statement touches the file')
+            return []
+        if isinstance(st, ast.Raise):
+            return ['raise']
+        if isinstance(st, (ast.With, ast.FunctionDef)):
+            raise TranslateError(f'{self.fn.name}: {type(st).__name__} statement not supported')
+        if self.uses_file(st):
+            raise TranslateError(f'{self.fn.name}: statement not recognised: {ast.unparse(st)[:80]}')
+        return []
+
+    def run(self) -> list[str]:
+        return [e for st in _body(self.fn) for e in self.stmt(st)]
+
+
+def _method(tree: ast.Module, cls: str, name: str) -> ast.FunctionDef:
+    c = _cls(tree, cls)
+    fns = [n for n in c.body if isinstance(n, ast.FunctionDef) and n.name == name and not any(
+        _is(d, 'overload') for d in n.decorator_list)]
+    if len(fns) != 1:
+        raise TranslateError(f'{cls}.{name} not found')
+    return fns[0]
+
+
+def _only_colons(lit: ast.AST, what: str) -> int:
+    v = _const(lit, str, what)
+    if v.strip(' :') != '' or ':' not in v:
+        raise TranslateError(f'{what}: separator {v!r} is not made of colons and blanks')
+    return v.count(':')
+
+
+def _text_writers(tree: ast.Module) -> dict:
+    """Decisive branches of KVDef.export / EntityDef.export (the model is Fmt/FgdLine.v [line_cfg]) and the write
+    skeletons of KVDef.export, IODef.export and EntityDef.export."""
+    kve = _method(tree, 'KVDef', 'export')
+    ioe = _method(tree, 'IODef', 'export')
+    ente = _method(tree, 'EntityDef', 'export')
+    body = _body(kve)
+    # `default = self.default` ... `if not default and self.type is ValueTypes.BOOL: default = '0'` ... `if default: ... else: ...`
+    dvar = None
+    for st in body:
+        if isinstance(st, ast.Assign) and isinstance(st.targets[0], ast.Name) and _is(st.value, 'self.default'):
+            dvar = st.targets[0].id
+    if dvar is None:
+        raise TranslateError('KVDef.export: `default = self.default` not found')
+    fills = [st for st in body if isinstance(st, ast.If) and any(
+        isinstance(x, ast.Assign) and isinstance(x.targets[0], ast.Name) and x.targets[0].id == dvar for x in st.body)]
+    if not fills:
+        bool_fill = False
+    elif len(fills) == 1 and (_is(fills[0].test, f'not {dvar} and self.type is ValueTypes.BOOL')
+                              or _is(fills[0].test, f'not {dvar} and self._type is ValueTypes.BOOL')
+                              or _is(fills[0].test, f'self.type is ValueTypes.BOOL and not {dvar}')) \
+            and len(fills[0].body) == 1 and _is(fills[0].body[0], f"{dvar} = '0'") and not fills[0].orelse:
+        bool_fill = True
+    else:
+        raise TranslateError('KVDef.export: the BOOL default fill is not recognised: ' + ' ; '.join(ast.unparse(f)[:80] for f in fills))
+    branch = [st for st in body if isinstance(st, ast.If) and _is(st.test, dvar)]
+    if len(branch) != 1 or not branch[0].orelse:
+        raise TranslateError('KVDef.export: `if default: ... else: ...` not found')
+
+    def desc_sep(sts: list[ast.stmt], what: str) -> int:
+        ifs = [x for x in sts if isinstance(x, ast.If) and _is(x.test, 'self.desc')]
+        if len(ifs) != 1 or ifs[0].orelse or len(ifs[0].body) != 1:
+            raise TranslateError(f'KVDef.export: `if self.desc: file.write(sep)` not found {what}')
+        w = ifs[0].body[0]
+        if not (isinstance(w, ast.Expr) and _is_call_method(w.value, 'write') and len(w.value.args) == 1):  # type: ignore[attr-defined]
+            raise TranslateError(f'KVDef.export: separator write not recognised {what}')
+        return _only_colons(w.value.args[0], 'KVDef.export separator ' + what)  # type: ignore[attr-defined]
+    colons_with = desc_sep(branch[0].body, 'after a default')
+    colons_without = desc_sep(branch[0].orelse, 'without a default')
+    # the description itself is written iff non-empty
+    if not any(isinstance(st, ast.If) and _is(st.test, 'self.desc') and len(st.body) == 1 and isinstance(st.body[0], ast.Expr)
+               and isinstance(st.body[0].value, ast.Call) and _is(st.body[0].value.func, '_write_longstring') for st in body):
+        raise TranslateError('KVDef.export: `if self.desc: _write_longstring(...)` not found')
+    # EntityDef.export: when is the @resources block written
+    res_ifs = [st for st in ast.walk(ente) if isinstance(st, ast.If) and any(
+        isinstance(n, ast.Constant) and isinstance(n.value, str) and '@resources' in n.value for x in st.body for n in ast.walk(x))]
+    if len(res_ifs) != 1:
+        raise TranslateError('EntityDef.export: the `if` that writes the @resources block was not found exactly once')
+    t = res_ifs[0].test
+    if not (isinstance(t, ast.BoolOp) and isinstance(t.op, ast.And) and len(t.values) == 2 and any(_is(v, 'custom_syntax') for v in t.values)):
+        raise TranslateError('EntityDef.export: @resources condition is not `custom_syntax and ...`: ' + ast.unparse(t))
+    cond = [v for v in t.values if not _is(v, 'custom_syntax')][0]
+    defined = ('self.resources != ()', '() != self.resources', 'self.resources_defined()', 'not self.resources == ()')
+    nonempty = ('self.resources', 'len(self.resources) > 0', 'len(self.resources) != 0', 'len(self.resources)', 'bool(self.resources)',
+                'self.resources != () and self.resources', 'len(self.resources) >= 1')
+    if any(_is(cond, x) for x in defined):
+        res_defined = True
+    elif any(_is(cond, x) for x in nonempty):
+        res_defined = False
+    else:
+        raise TranslateError('EntityDef.export: @resources condition not recognised: ' + ast.unparse(cond))
+    sk = {'KVDef.export': _TextSkeleton(kve).run(), 'IODef.export': _TextSkeleton(ioe).run(), 'EntityDef.export': _TextSkeleton(ente).run()}
+
+    def has_run(lst: list[str], run: list[str]) -> bool:
+        return any(lst[i:i + len(run)] == run for i in range(len(lst)))
+    # spawnflags keyvalues write no display name, everything else writes `: "display name"`
+    if not has_run(sk['KVDef.export'], ['if(_._type is not ValueTypes.SPAWNFLAGS){', "w:': '", "ls:_,_.disp_name,'\\t'", '}']):
+        raise TranslateError('KVDef.export: `if self._type is not ValueTypes.SPAWNFLAGS: ": " + display name` not recognised')
+    if not has_run(sk['IODef.export'], ['if(_.desc){', "w:' : '", "ls:_,_.desc,'\\t'", '}', "w:'\\n'"]):
+        raise TranslateError('IODef.export: `if self.desc: " : " + description` then newline not recognised')
+    return dict(bool_fill=bool_fill, colons_with_default=colons_with, colons_without_default=colons_without, res_if_defined=res_defined,
+                skeletons=sk)
+
+
+# ------------------------------------------------------------------------------------------ record layouts
+class _Skeleton:
+    """The I/O skeleton of one (un)serialiser: the primitive reads/writes in program order with the loops and
+    branches that contain them.  Local variable and parameter names do not appear (rendered as `_`, or as `#k` when the
+    variable holds the k-th value read so far / the k-th header field); attribute names, module-level names and
+    literals do.  Anything that touches the file in a way not listed here fails closed."""
+
+    def __init__(self, fn: ast.FunctionDef, file_arg: str, dict_arg: str) -> None:
+        self.fn, self.file, self.dic = fn, file_arg, dict_arg
+        self.locals = {a.arg for a in fn.args.args} | {n.id for n in ast.walk(fn) if isinstance(n, ast.Name) and isinstance(n.ctx, ast.Store)}
+        self.bound: dict[str, str] = {}     # local name -> '#k'
+        self.nread = 0
+        self.out: list[str] = []
+
+    # -- rendering of tests / iterables
+    def show(self, node: ast.AST) -> str:
+        bound, loc = self.bound, self.locals
+
+        class R(ast.NodeTransformer):
+            def visit_Name(self, n: ast.Name) -> ast.AST:   # noqa: N802
+                if n.id in bound:
+                    return ast.Name(id=bound[n.id].replace('#', 'R'), ctx=n.ctx)
+                return ast.Name(id='_', ctx=n.ctx) if n.id in loc else n
+        import copy
+        return ast.unparse(R().visit(copy.deepcopy(node))).replace('R', '#') if False else ast.unparse(R().visit(copy.deepcopy(node)))
+
+    def touches_file(self, node: ast.AST) -> bool:
+        return any(isinstance(n, ast.Name) and n.id in (self.file, self.dic) for n in ast.walk(node))
+
+    # -- one primitive expression
+    def prim_write(self, call: ast.Call) -> str:
+        """file.write(ARG)"""
+        (arg,) = call.args
+        if isinstance(arg, ast.Call) and isinstance(arg.func, ast.Name) and arg.func.id == self.dic and len(arg.args) == 1:
+            return 'str'
+        if isinstance(arg, ast.Call) and _is(arg.func, '_fmt_8bit.pack') and len(arg.args) == 1:
+            return 'u8'
+        if isinstance(arg, ast.Call) and _is(arg.func, '_fmt_ent_header.pack'):
+            return 'hdr:' + ','.join(self.show(a) for a in arg.args)
+        raise TranslateError(f'{self.fn.name}: write of {ast.unparse(arg)[:60]} not recognised (line {call.lineno})')
+
+    def events_of_expr(self, node: ast.AST) -> list[str]:
+        """Primitive events of one expression, in evaluation order (arguments before the call)."""
+        ev: list[str] = []
+        for ch in ast.iter_child_nodes(node):
+            if not (isinstance(node, ast.Call) and ch is node.func):
+                ev += self.events_of_expr(ch)
+        if isinstance(node, ast.Call):
+            f = node.func
+            if isinstance(f, ast.Attribute) and isinstance(f.value, ast.Name) and f.value.id == self.file:
+                if f.attr == 'write':
+                    inner = self.prim_write(node)
+                    return [e for e in ev if e != 'str'] + [inner] if inner == 'str' else ev + [inner]
+                if f.attr == 'read':
+                    return ev + ['read:' + self.show(node.args[0])]
+                raise TranslateError(f'{self.fn.name}: file.{f.attr} not recognised')
+            if isinstance(f, ast.Name) and f.id == self.dic:
+                return ev + ['str']
+            if _is(f, 'BinStrDict.write_tags') or _is(f, 'BinStrDict.read_tags'):
+                return ev + ['tags']
+            if isinstance(f, ast.Name) and f.id in ('kv_serialise', 'kv_unserialise'):
+                return ev + ['kv']
+            if isinstance(f, ast.Name) and f.id in ('iodef_serialise', 'iodef_unserialise'):
+                return ev + ['io']
+            if any(isinstance(a, ast.Name) and a.id in (self.file, self.dic) for a in node.args) and not (
+                    _is(f, '_fmt_8bit.pack') or _is(f, '_fmt_ent_header.pack') or _is(f, '_fmt_ent_header.unpack')):
+                raise TranslateError(f'{self.fn.name}: the file is passed to {ast.unparse(f)} (line {node.lineno})')
+        return ev
+
+    def stmt(self, st: ast.stmt) -> list[str]:
+        if isinstance(st, (ast.Assign, ast.AnnAssign, ast.AugAssign, ast.Expr, ast.Return, ast.Assert)):
+            val = getattr(st, 'value', None) if not isinstance(st, ast.Assert) else None
+            ev = self.events_of_expr(val) if val is not None else []
+            out: list[str] = []
+            for e in ev:
+                if e.startswith('read:'):
+                    what = e[5:]
+                    if what == '1':
+                        out.append('u8')
+                    elif what == '_fmt_ent_header.size':
+                        out.append('hdr')
+                    else:
+                        raise TranslateError(f'{self.fn.name}: file.read({what}) not recognised')
+                else:
+                    out.append(e)
+            # bind the targets of a read to #k
+            if isinstance(st, ast.Assign) and out and out[-1] in ('u8', 'str', 'hdr') and len(out) == 1:
+                tgt = st.targets[0]
+                names = [tgt.id] if isinstance(tgt, ast.Name) else (
+                    [e.id for e in tgt.elts if isinstance(e, ast.Name)] if isinstance(tgt, (ast.List, ast.Tuple)) else [])
+                if out[0] == 'hdr':
+                    for k, nm in enumerate(names):
+                        self.bound[nm] = f'h{k}'
+                    out = [f'hdr{len(names)}']
+                else:
+                    for nm in names:
+                        self.bound[nm] = f'r{self.nread}'
+                    self.nread += 1
+            elif any(e in ('u8', 'str') for e in out):
+                self.nread += sum(1 for e in out if e in ('u8', 'str'))
+            if isinstance(st, ast.Return) and self.depth:
+                out.append('return')
+            return out
+        if isinstance(st, ast.If):
+            self.depth += 1
+            body = [e for x in st.body for e in self.stmt(x)]
+            orelse = [e for x in st.orelse for e in self.stmt(x)]
+            self.depth -= 1
+            if not any(e != 'return' for e in body + orelse):
+                return []
+            return [f'if({self.show(st.test)}){{'] + body + (['}else{'] + orelse if orelse else []) + ['}']
+        if isinstance(st, (ast.For, ast.While)):
+            self.depth += 1
+            body = [e for x in st.body for e in self.stmt(x)]
+            self.depth -= 1
+            if st.orelse:
+                raise TranslateError(f'{self.fn.name}: loop with else')
+            if not any(e != 'return' for e in body):
+                return []
+            head = self.show(st.iter) if isinstance(st, ast.For) else self.show(st.test)
+            return [f'loop({head}){{'] + body + ['}']
+        if isinstance(st, ast.Raise):
+            return ['raise']
+        if isinstance(st, (ast.Continue, ast.Pass, ast.Break)):
+            return []
+        if isinstance(st, (ast.With, ast.Try, ast.FunctionDef, ast.Match if hasattr(ast, 'Match') else ast.With)):
+            raise TranslateError(f'{self.fn.name}: {type(st).__name__} statement not supported')
+        if self.touches_file(st):
+            raise TranslateError(f'{self.fn.name}: statement not recognised: {ast.unparse(st)[:80]}')
+        return []
+
+    def run(self) -> list[str]:
+        self.depth = 0
+        return [e for st in _body(self.fn) for e in self.stmt(st)]
+
+
+def _record_layouts(tree: ast.Module) -> dict[str, list[str]]:
+    out = {}
+    for nm, (fi, di) in {'kv_serialise': (1, 2), 'kv_unserialise': (0, 1), 'iodef_serialise': (1, 2), 'iodef_unserialise': (0, 1),
+                         'ent_serialise': (1, 2), 'ent_unserialise': (0, 2)}.items():
+        fn = _fn(tree, nm)
+        args = [a.arg for a in fn.args.args]
+        if len(args) != 3 and not (nm.endswith('unserialise') and nm != 'ent_unserialise' and len(args) == 2):
+            raise TranslateError(f'{nm} signature changed: {args}')
+        out[nm] = _Skeleton(fn, args[fi], args[di]).run()
+    return out
+
+
+def _self_attr(node: ast.AST, attr: str) -> bool:
+    return isinstance(node, ast.Attribute) and node.attr == attr and isinstance(node.value, ast.Name) and node.value.id == 'self'
+
+
+def _self_call(node: ast.AST, meth: str) -> bool:
+    return isinstance(node, ast.Call) and _self_attr(node.func, meth)
+
+
+def _lazy_db(edb: dict[str, ast.FunctionDef]) -> dict:
+    """The decisive shapes of EngineDB.get_ent / _parse_block / get_fgd (the model is SM/LazyDb.v):
+      * get_ent: look the (casefolded) name up in ent_map, return a decoded entry at once, otherwise
+        _parse_block(<that entry>) and look the name up again;
+      * _parse_block: returns at once for an emptied block; the block is marked as decoded (`self.unparsed[index] = ...`)
+        before or after the loop that replaces the stored base names (mark_before_resolve), and that loop resolves
+        each name through self.get_ent (decoding the block of the base on demand) or by looking at self.ent_map only
+        (via_get_ent);
+      * get_fgd: calls _parse_block for every block index of enumerate(self.unparsed)."""
+    # ---- get_ent
+    ge = edb['get_ent']
+    gargs = [a.arg for a in ge.args.args]
+    if len(gargs) != 2:
+        raise TranslateError(f'EngineDB.get_ent signature changed: {gargs}')
+    cn = gargs[1]
+    look = f'self.ent_map[{cn}.casefold()]'
+    gb = [st for st in _body(ge) if not isinstance(st, ast.Assert)]
+    ok = (len(gb) == 5 and isinstance(gb[0], ast.Assign) and isinstance(gb[0].targets[0], ast.Name) and _is(gb[0].value, look)
+          and isinstance(gb[1], ast.If) and not gb[1].orelse and len(gb[1].body) == 1 and isinstance(gb[1].body[0], ast.Return)
+          and isinstance(gb[3], ast.Assign) and isinstance(gb[3].targets[0], ast.Name) and _is(gb[3].value, look)
+          and isinstance(gb[4], ast.Return))
+    if ok:
+        v0, v1 = gb[0].targets[0].id, gb[3].targets[0].id  # type: ignore[attr-defined]
+        ok = (_is(gb[1].test, f'isinstance({v0}, EntityDef)') and _is(gb[1].body[0], f'return {v0}')  # type: ignore[attr-defined]
+              and _is(gb[2], f'self._parse_block({v0})') and _is(gb[4], f'return {v1}'))
+    if not ok:
+        raise TranslateError('EngineDB.get_ent: look-up / isinstance / _parse_block / second look-up not recognised')
+    # ---- _parse_block
+    pb = edb['_parse_block']
+    pargs = [a.arg for a in pb.args.args]
+    if len(pargs) != 2:
+        raise TranslateError(f'EngineDB._parse_block signature changed: {pargs}')
+    idx = pargs[1]
+    body = _body(pb)
+    if not (body and isinstance(body[0], ast.Assign) and _is(body[0].value, f'self.unparsed[{idx}]')
+            and isinstance(body[0].targets[0], ast.Tuple) and len(body[0].targets[0].elts) == 2
+            and all(isinstance(e, ast.Name) for e in body[0].targets[0].elts)):
+        raise TranslateError('_parse_block does not start with `classes, data = self.unparsed[index]`')
+    classes, data = (e.id for e in body[0].targets[0].elts)  # type: ignore[attr-defined]
+    if not (len(body) > 1 and _is(body[1], f'if not {data}:\n    return')):
+        raise TranslateError('_parse_block: `if not data: return` not recognised')
+    mark = [i for i, st in enumerate(body) if isinstance(st, ast.Assign) and len(st.targets) == 1
+            and ast.unparse(st.targets[0]) == f'self.unparsed[{idx}]']
+    if len(mark) != 1 or not _is(body[mark[0]].value, "((), b'')"):  # type: ignore[attr-defined]
+        raise TranslateError("_parse_block: the statement `self.unparsed[index] = ((), b'')` was not found exactly once")
+    loops = [i for i, st in enumerate(body) if isinstance(st, ast.For)]
+    if len(loops) != 2:
+        raise TranslateError(f'_parse_block: expected the decoding loop and the bases loop, found {len(loops)} loops')
+    dec, app = body[loops[0]], body[loops[1]]
+    if not _is(dec.iter, classes):  # type: ignore[attr-defined]
+        raise TranslateError('_parse_block: the first loop does not run over the class names of the block')
+    stores = [n for n in ast.walk(dec) if isinstance(n, ast.Assign) and any(
+        isinstance(t, ast.Subscript) and _self_attr(t.value, 'ent_map') for t in n.targets)]
+    if len(stores) != 1 or not (isinstance(stores[0].value, ast.Call) and _is(stores[0].value.func, 'ent_unserialise')):
+        raise TranslateError('_parse_block: `self.ent_map[...] = ent_unserialise(...)` not recognised in the decoding loop')
+    # which list collects the definitions with stored bases
+    appends = [n for n in ast.walk(dec) if isinstance(n, ast.Call) and _is_call_method(n, 'append')
+               and isinstance(n.func.value, ast.Name)]  # type: ignore[attr-defined]
+    pend = {n.func.value.id for n in appends}  # type: ignore[attr-defined]
+    if not (isinstance(app.iter, ast.Name) and app.iter.id in pend and not app.orelse):  # type: ignore[attr-defined]
+        raise TranslateError('_parse_block: the second loop does not run over the list filled by the decoding loop')
+    get_calls = [n for n in ast.walk(app) if _self_call(n, 'get_ent')]
+    map_reads = [n for n in ast.walk(app) if _self_attr(n, 'ent_map')]
+    other_self = [n for n in ast.walk(app) if isinstance(n, ast.Attribute) and isinstance(n.value, ast.Name) and n.value.id == 'self'
+                  and n.attr not in ('get_ent', 'ent_map')]
+    writes_bases = any(isinstance(n, (ast.Assign, ast.AugAssign)) and any(
+        (isinstance(t, ast.Attribute) and t.attr == 'bases') or
+        (isinstance(t, ast.Subscript) and isinstance(t.value, ast.Attribute) and t.value.attr == 'bases')
+        for t in (n.targets if isinstance(n, ast.Assign) else [n.target])) for n in ast.walk(app))
+    if other_self or not writes_bases:
+        raise TranslateError('_parse_block: bases loop not recognised: ' + ast.unparse(app)[:200])
+    if get_calls and not map_reads:
+        if not all(len(c.args) == 1 and not c.keywords for c in get_calls):
+            raise TranslateError('_parse_block: get_ent call in the bases loop not recognised')
+        via_get_ent = True
+    elif map_reads and not get_calls:
+        via_get_ent = False
+    else:
+        raise TranslateError('_parse_block: the bases loop neither calls self.get_ent nor reads self.ent_map (or does both): '
+                             + ast.unparse(app)[:200])
+    # ---- get_fgd
+    gf = edb['get_fgd']
+    found = False
+    for n in ast.walk(gf):
+        if isinstance(n, ast.For) and _is(n.iter, 'enumerate(self.unparsed)') and isinstance(n.target, ast.Tuple) \
+                and isinstance(n.target.elts[0], ast.Name):
+            i = n.target.elts[0].id
+            if any(_is(c, f'self._parse_block({i})') for c in ast.walk(n) if isinstance(c, ast.Call)):
+                found = True
+    if not found:
+        raise TranslateError('get_fgd: `for i, ... in enumerate(self.unparsed): ... self._parse_block(i)` not recognised')
+    return dict(via_get_ent=via_get_ent, mark_before_resolve=mark[0] < loops[1], mark_after_decode=mark[0] > loops[0],
+                fgd_applies_bases=any(_is_call_method(n, 'apply_bases') for n in ast.walk(gf)))
 
 
 # ------------------------------------------------------------------------------------------ emit
@@ -422,6 +844,7 @@ def translate() -> tuple[str, dict]:
     pairs, excl, tok_side = _tokenizer_tables()
     fgd_tree = ast.parse(src_text('fgd.py'))
     wl = _write_longstring(fgd_tree)
+    tw = _text_writers(fgd_tree)
     fe = _fgd_escape(fgd_tree)
     db = _engine_db()
     for op in (wl['loop_op'], wl['nl_op']):
@@ -430,7 +853,7 @@ def translate() -> tuple[str, dict]:
     ef = dict(db['ef_members'])
     lines = [
         '(* GENERATED by translate/c16_fgd.py from srctools/fgd.py, _engine_db.py, tokenizer.py, const.py. Do not edit. *)',
-        'From Coq Require Import List NArith String.', 'From SV Require Import Fmt.LongString.',
+        'From Coq Require Import List NArith String.', 'From SV Require Import Fmt.LongString Fmt.FgdLine.',
         'Import ListNotations.', 'Open Scope string_scope.',
         'Inductive cmp_op := OpGt | OpGe | OpLt | OpLe | OpEq | OpNe.',
         '(* tokenizer.ESCAPES as (symbol, character); characters escape_text() never escapes *)',
@@ -449,6 +872,10 @@ def translate() -> tuple[str, dict]:
         f'Definition ls_off2 : nat := {wl["off2"]}.',
         f'Definition ls_notfound : Z := ({wl["notfound"]})%Z.' if False else f'Definition ls_notfound : nat := {wl["notfound"]}.',
         f'Definition ls_joiner : list N := {_cstr(wl["joiner"])}.',
+        '(* KVDef.export / EntityDef.export: decisive branches of the line writers (Fmt/FgdLine.v) *)',
+        f'Definition gen_line_cfg : FgdLine.line_cfg := {{| FgdLine.colons_before_desc_without_default := {tw["colons_without_default"]}; '
+        f'FgdLine.bool_default_filled := {_b(tw["bool_fill"])}; FgdLine.res_block_if_defined := {_b(tw["res_if_defined"])} |}}.',
+        f'Definition kv_colons_after_default : nat := {tw["colons_with_default"]}.',
         '(* _engine_db tables *)',
         f'Definition value_types_all : list string := {_slist(n for n, _ in db["vt_members"])}.',
         f'Definition value_type_order : list string := {_slist(db["vt_order"])}.',
@@ -460,6 +887,15 @@ def translate() -> tuple[str, dict]:
         f'Definition string_sep : N := {ord(db["consts"]["STRING_SEP"])}%N.',
         f'Definition bin_format_version : N := {db["consts"]["BIN_FORMAT_VERSION"]}%N.',
         'Definition struct_formats : list (string * string) := [' + '; '.join(f'("{k}", "{v}")' for k, v in db['structs'].items()) + '].',
+        '(* I/O skeletons of the record (un)serialisers: primitive reads/writes in program order with their loops/branches *)',
+        'Definition bin_layouts : list (string * list string) := [' + '; '.join(
+            '("%s", [%s])' % (fn, '; '.join('"%s"' % e.replace('"', '""') for e in evs)) for fn, evs in db['layouts'].items()) + '].',
+        f'Definition bin_list_type : string := "{db["special_types"]["list"]}".',
+        f'Definition bin_choices_type : string := "{db["special_types"]["choices"]}".',
+        '(* EngineDB._parse_block: bases resolved through self.get_ent (true) or by a look-up in self.ent_map (false); *)',
+        '(* the block is marked as decoded before the bases loop *)',
+        f'Definition lazy_via_get_ent : bool := {_b(db["lazy"]["via_get_ent"])}.',
+        f'Definition lazy_mark_before_resolve : bool := {_b(db["lazy"]["mark_before_resolve"] and db["lazy"]["mark_after_decode"])}.',
         '(* every bit operation with an integer literal in the (un)serialisers: (function, operator, literal) *)',
         'Definition bit_ops : list (string * string * N) := [' + '; '.join(
             f'("{fn}", "{op}", {lit}%N)' for fn, ops in db['bits'].items() for op, lit, _ in ops) + '].',
@@ -467,7 +903,7 @@ def translate() -> tuple[str, dict]:
     ]
     if wl['notfound'] < 0:
         raise TranslateError('not-found comparison value is negative')
-    side = dict(write_longstring=wl, fgd_escape=fe, tokenizer=tok_side, engine_db={k: v for k, v in db.items() if k != 'bits'},
+    side = dict(write_longstring=wl, fgd_escape=fe, text_writers=tw, tokenizer=tok_side, engine_db={k: v for k, v in db.items() if k != 'bits'},
                 bit_ops=db['bits'])
     return '\n'.join(lines), side
 
